@@ -247,6 +247,8 @@ func runControls(dir string) *controlResult {
 		{"CHUNK-START-INCLUSIVE", map[string]bool{"(*chunked).BadChunkStartStrict": true, "(*chunked).GoodChunkStartInclusive": false}},
 		{"MEMO-PRIMED", map[string]bool{"BadMemoZeroSentinel": true, "GoodMemoFirstRound": false, "GoodMemoValueTest": false}},
 		{"NARROW-GUARD", map[string]bool{"(*Scanner).seekTo": true, "(*Scanner).seekChecked": false}},
+		{"EMPTY-MEANS-BOTH", map[string]bool{"(*PostingsList).BadEmptyBeforeOneHit": true, "(*PostingsList).GoodOneHitFirst": false}},
+		{"EMPTY-VS-NIL", map[string]bool{"(*runState).BadResetKeepsBuffer": true}},
 		{"MEMO-COMMIT", map[string]bool{"(*rowCache).BadCommitBeforeLoad": true, "(*rowCache).GoodCommitAfterLoad": false}},
 		{"LOCS-IMPLY-FREQNORM", map[string]bool{"BadFlagsLocsWithoutFreqNorm": true, "GoodFlagsLocsImplyFreqNorm": false}},
 	} {
